@@ -237,15 +237,24 @@ fn check(segs: &[Seg]) -> Result<bool, String> {
 }
 
 fn arb_text() -> BoxedStrategy<String> {
-    proptest::collection::vec(
+    let mixed = proptest::collection::vec(
         prop_oneof![
             4 => "[a-zA-Z ]{1,6}",
             2 => prop::sample::select(vec![".", "'", "\\", "-", "\"", "\n", "\n.", "\n'", ".\n", "..", "'.", "\\-", "\\&", "\\fB", "\\n", "--", "\n\n", " \n .", ".gcolor red", "\n.fcolor blue\n", "\n.so /etc/passwd", "\\*(Aq"]).prop_map(|s| s.to_owned()),
             1 => prop::sample::select(vec!["é", "漢", "😀", "ß", "\u{a0}"]).prop_map(|s| s.to_owned()),
+            2 => "[ -~]{1,10}",
         ],
         1..=5,
     )
-    .prop_map(|v| v.concat())
+    .prop_map(|v| v.concat());
+    // whole texts of the shapes found in command-line help and manual pages: the look of a text must
+    // not influence how it is set
+    let shaped = prop::sample::select(vec![
+        "<FILE>", "<a>", "<A|B>", "<>", "<FILE", "FILE>", "x<FILE>", "[OPTIONS]", "[-h]", "--help", "-h, --help", "FILE...", "{x}", "$HOME", "a=b", "100%", "#1", "~/x", "`cmd`", "(s)",
+        "*bold*", "_it_", "<b>x</b>", "&amp;", "NAME", "SYNOPSIS", "foo(1)", "\"q\"", "'q'", "1.", "- item", "=====", "a\tb", "http://x/y?z=1&w=2", "C:\\dir", "@x", "^", "|",
+    ])
+    .prop_map(|s| s.to_owned());
+    prop_oneof![5 => mixed, 2 => shaped]
     .boxed()
 }
 
